@@ -1,0 +1,86 @@
+//go:build verif
+
+package gossip
+
+// verif hook H3: lets a deterministic simulator stand in for
+// hashicorp/memberlist (message delivery, membership notifications) and for
+// the process-global math/rand behind PeerList.Shuffle, while the agent's own
+// logic (Send, route, buses, delegates, processors) stays real. Only compiled
+// with -tags verif.
+
+import "github.com/hashicorp/memberlist"
+
+// SimSendHook, when set, receives every wire Agent.Send would hand to
+// memberlist.SendReliable.
+var SimSendHook func(a *Agent, dst *memberlist.Node, wire []byte)
+
+func simSend(a *Agent, dst *memberlist.Node, wire []byte) bool {
+	if SimSendHook != nil {
+		SimSendHook(a, dst, wire)
+		return true
+	}
+	return false
+}
+
+// SimShuffleHook, when set, permutes l.L in place and returns true.
+var SimShuffleHook func(l *PeerList) bool
+
+func simShuffle(l *PeerList) bool {
+	if SimShuffleHook != nil {
+		return SimShuffleHook(l)
+	}
+	return false
+}
+
+// SimStart does what Start does minus memberlist.Create/Join and the metrics server.
+func (a *Agent) SimStart() {
+	if a.Tasks != nil {
+		a.Tasks.Start()
+	}
+	if a.Notifier != nil {
+		a.Notifier.Start()
+	}
+	a.sender()
+}
+
+// SimStop stops the loops SimStart started.
+func (a *Agent) SimStop() {
+	close(a.quitCh)
+	if a.Tasks != nil {
+		a.Tasks.Stop()
+	}
+	if a.Notifier != nil {
+		a.Notifier.Stop()
+	}
+}
+
+// SimDeliver hands a wire to the real message delegate.
+func (a *Agent) SimDeliver(wire []byte) { newAgentDelegate(a, a.log).NotifyMsg(wire) }
+
+// SimNotifyJoin/Leave/Update call the real event delegate.
+func (a *Agent) SimNotifyJoin(n *memberlist.Node)   { (&eventDelegate{a, a.log}).NotifyJoin(n) }
+func (a *Agent) SimNotifyLeave(n *memberlist.Node)  { (&eventDelegate{a, a.log}).NotifyLeave(n) }
+func (a *Agent) SimNotifyUpdate(n *memberlist.Node) { (&eventDelegate{a, a.log}).NotifyUpdate(n) }
+
+// SimTopology exposes the agent's topology for the consistency oracle.
+func (a *Agent) SimTopology() *Topology { return a.topology }
+
+// SimRoute exposes the routing decision.
+func (a *Agent) SimRoute(src *Peer) []*memberlist.Node { return a.route(src) }
+
+// SimNode is this agent as memberlist would advertise it.
+func (a *Agent) SimNode() *memberlist.Node {
+	m, _ := a.Self.Meta.Encode()
+	return &memberlist.Node{Name: a.Self.Name, Addr: a.Self.Addr, Port: a.Self.Port, Meta: m}
+}
+
+// SimRoles lists the roles present in a topology (unordered).
+func (t *Topology) SimRoles() []string {
+	t.Lock()
+	defer t.Unlock()
+	r := make([]string, 0, len(t.m))
+	for k := range t.m {
+		r = append(r, k)
+	}
+	return r
+}
